@@ -127,13 +127,13 @@ pub open spec fn echoed(hs: Seq<(Seq<char>, Seq<char>)>, base: Seq<(Seq<char>, S
 //@- <B: hyper::body::Body>
 //@+ <B>
 //@rwx R8 1
-//@- (?s)let check = \|c: &HeaderValue\| \{\n(.*?)c\s*\.as_bytes\(\)\s*\.iter\(\)\s*\.all\(\|c\| ([^\n]*)\)\n(\s*)\};
-//@+ let check = |c: &HeaderValue| -> (ok: bool) ensures ok == well_formed(c@) {\n let mut it_1 = c.as_bytes().iter(); let ghost s_1 = it_1.remaining(); let all_1 = it_1.all(|c: &u8| -> (b: bool) ensures b == challenge_char(*c as char) { \2 }); proof { all_hint(c@, s_1, all_1); }\n\1all_1\n\3};
+//@- (?s)let (\w+) = \|(\w+): &HeaderValue\| \{\n(.*?)\2\s*\.as_bytes\(\)\s*\.iter\(\)\s*\.all\(\|(\w+)\| ([^\n]*)\)\n(\s*)\};
+//@+ let \1 = |\2: &HeaderValue| -> (ok: bool) ensures ok == well_formed(\2@) {\n let mut it_1 = \2.as_bytes().iter(); let ghost s_1 = it_1.remaining(); let all_1 = it_1.all(|\4: &u8| -> (b: bool) ensures b == challenge_char(*\4 as char) { \5 }); proof { all_hint(\2@, s_1, all_1); }\n\3all_1\n\6};
 //@rwx R23 1
 //@- \.map_err\(\|err\| Box::new\(err\) as HyperError\)
 //@+ .map_err(|err: HttpError| -> (o: HyperError) { box_err(err) })
 //@ins before 1
-//@- let check =
+//@- : &HeaderValue| -> (ok: bool)
 //@| broadcast use axiom_slice_iter_seq, fmt1_response;
 //@| proof { reveal_strlit("response {}"); reveal_strlit("response "); }
 //@end
